@@ -17,7 +17,9 @@ RULE = (
     "@guppy.overload functions used as variants, and a custom-checker variadic function (any number of ints) x argument lists "
     "(typed variables incl. tuple-typed and qubit ones, int/negative int/float/bool literals, tuple literals, nested tuple "
     "literals) in synthesis position (`y = ov(..)`) and three checking positions (`y: T = ov(..)`, `return ov(..)`, "
-    "`consume(ov(..))`), called from a regular function and (subset) from a `@guppy.comptime` function.  Variants are derived from "
+    "`consume(ov(..))`), called from a regular function and (subset) from a `@guppy.comptime` function; for about 30% of the sets "
+    "2-4 calls with different argument lists of the same arity are additionally written into ONE function in a generated order "
+    "(history dimension), each call judged against its own direct-call oracle.  Variants are derived from "
     "the argument list by near-miss edits (widen a numeric, break a late parameter so that earlier arguments are coerced first, "
     "change arity, generalise to a type variable, change the result type, demand a compile-time value).  non-trivial = at least 2 "
     "variants and the first variant does not accept (per the direct-call oracle)."
@@ -233,6 +235,75 @@ def program(case, direct=None):
         out.append(f"@guppy.declare\ndef consume(x: {ty_src(exp)}) -> None: ...")
         out.append(f"{dec}\ndef test({params}) -> None:\n    consume({call})\n")
     return "\n".join(out)
+
+
+def program_seq(case, calls):
+    """one function containing several calls of the same overloaded function, in the given order;
+    calls: list of {args, exp, pos}; `ret` positions are written as annotated assignments"""
+    used: set = set()
+    head = program(dict(case, args=[], exp=None, pos="syn", comptime_caller=False)).rsplit("@guppy\ndef test(", 1)[0]
+    stmts, extra = [], []
+    for i, c in enumerate(calls):
+        args = ", ".join(arg_src(a, used) for a in c["args"])
+        pos = "ann" if c["pos"] == "ret" else c["pos"]
+        if pos == "syn":
+            stmts.append(f"    y{i} = ov({args})")
+        elif pos == "ann":
+            stmts.append(f"    y{i}: {ty_src(c['exp'])} = ov({args})")
+        else:
+            extra.append(f"@guppy.declare\ndef consume{i}(x: {ty_src(c['exp'])}) -> None: ...")
+            stmts.append(f"    consume{i}(ov({args}))")
+    params = []
+    for t in sorted(used, key=str):
+        if isinstance(t, tuple) and t[0] == "qv":
+            params.append(f"xq{t[1]}: qubit")
+        else:
+            params.append(f"x_{ty_name(_thaw(t))}: {ty_src(_thaw(t))}")
+    return head + "\n".join(extra) + ("\n" if extra else "") + f"@guppy\ndef test({', '.join(params)}) -> None:\n" + "\n".join(stmts) + "\n"
+
+
+def run_seq(case, calls):
+    """-> list of per-call results in statement order, or a single failure tuple"""
+    import ast
+
+    import feed
+    from guppylang_internals.ast_util import get_type
+    from guppylang_internals.engine import ENGINE
+    from guppylang_internals.error import GuppyError
+    from guppylang_internals.nodes import GlobalCall
+
+    src = program_seq(case, calls)
+    try:
+        m = feed.load(src, prelude=feed.PRELUDE + PRELUDE_EXTRA)
+    except Exception as e:  # noqa: BLE001
+        return ("load-exception", type(e).__name__), src
+    try:
+        ids = {}
+        for k, v in enumerate(case["variants"]):
+            kind = vkind(v)
+            if kind == "p":
+                ids[getattr(m, f"v{k}").id] = str(k)
+            elif kind == "o":
+                for j in range(len(v[1])):
+                    ids[getattr(m, f"v{k}_{j}").id] = f"{k}.{j}"
+            else:
+                ids[getattr(m, f"sink{k}").id] = str(k)
+        try:
+            ENGINE.reset()
+            ENGINE.check(m.test.id)
+        except GuppyError as e:
+            return ("err", type(e.error).__name__), src
+        except BaseException as e:  # noqa: BLE001
+            return ("crash", type(e).__name__), src
+        found = []
+        for bb in ENGINE.checked[m.test.id].cfg.bbs:
+            for st in bb.statements:
+                for n in ast.walk(st):
+                    if isinstance(n, GlobalCall) and n.def_id in ids:
+                        found.append(("ok", ids[n.def_id], real_ty(get_type(n)), [real_ty(get_type(a)) for a in n.args]))
+        return found, src
+    finally:
+        feed.unload(m)
 
 
 def real_ty(t):
@@ -519,13 +590,48 @@ def rand_case(rng):
         else:
             exp = rand_ty(rng, 1)
     case = {"variants": variants, "args": args, "exp": exp, "pos": pos, "comptime_caller": False}
-    if pos == "syn" and rng.random() < 0.12 and all(isinstance(a, tuple) and a[0] == "y" and a[1] != "q" for a in args):
+    if args and rng.random() < 0.3:
+        add_more_calls(rng, case)
+    elif pos == "syn" and rng.random() < 0.12 and all(isinstance(a, tuple) and a[0] == "y" and a[1] != "q" for a in args):
         # a traced value given to a `nat @comptime` parameter crashes lowering (AssertionError in ConstArg.to_hugr; not
         # an overload matter): no comptime parameters in comptime-caller cases
         case["comptime_caller"] = True
         for v in variants:
             for sg in ([v] if vkind(v) == "p" else v[1] if vkind(v) == "o" else []):
                 sg[2] = [0] * len(sg[2])
+    return case
+
+
+def vary_args(rng, args):
+    """another argument list of the same length: literals <-> variables, neighbouring numeric types"""
+    out = []
+    for a in args:
+        r = rng.random()
+        t = synth_ty(a)
+        if r < 0.35:
+            out.append(a)
+        elif isinstance(t, str) and t in NUM:
+            out.append(rng.choice(["li", "li", "lf", ("y", "n"), ("y", "i"), ("y", "f")]))
+        elif t == "b":
+            out.append(rng.choice(["lb", ("y", "b"), "li"]))
+        elif t == "q":
+            out.append(a)
+        else:
+            out.append(rand_arg(rng, 1))
+    return out
+
+
+def add_more_calls(rng, case):
+    """history dimension: further calls of the same overloaded function (same arity) in the same function"""
+    more = []
+    for _ in range(rng.choice([1, 2, 2, 3])):
+        args = vary_args(rng, case["args"])
+        exp, pos = None, "syn"
+        if rng.random() < 0.35 and case["exp"] is not None:
+            exp, pos = case["exp"], rng.choice(["ann", "arg"])
+        more.append({"args": args, "exp": exp, "pos": pos})
+    case["more"] = more
+    case["order"] = rng.sample(range(len(more) + 1), len(more) + 1)
     return case
 
 
@@ -564,8 +670,13 @@ def _norm(c):
         return sig(v)
 
     exp = None if c["exp"] is None else ty(c["exp"])
-    return {"variants": [var(v) for v in c["variants"]], "args": [arg(a) for a in c["args"]], "exp": exp,
-            "pos": c.get("pos", "syn" if exp is None else "ann"), "comptime_caller": bool(c.get("comptime_caller", False))}
+    out = {"variants": [var(v) for v in c["variants"]], "args": [arg(a) for a in c["args"]], "exp": exp,
+           "pos": c.get("pos", "syn" if exp is None else "ann"), "comptime_caller": bool(c.get("comptime_caller", False))}
+    if c.get("more"):
+        out["more"] = [{"args": [arg(a) for a in mc["args"]], "exp": None if mc["exp"] is None else ty(mc["exp"]),
+                        "pos": mc["pos"]} for mc in c["more"]]
+        out["order"] = list(c.get("order", range(len(c["more"]) + 1)))
+    return out
 
 
 def cases(ctx):
@@ -585,41 +696,75 @@ def cases(ctx):
     return out
 
 
+def judge(ctx, c, ln, mv):
+    """one overloaded call in its own program: real vs direct-call oracle vs model; returns (real result, oracle result)"""
+    res, src = run_real(c)
+    orc, accepted = oracle(c)
+    r, o = show(res), show(orc)
+    key = "case:" + ln + f" pos={c['pos']}" + (" comptime" if c["comptime_caller"] else "")
+    nontrivial = len(c["variants"]) >= 2 and 0 not in accepted
+    kinds = "".join(sorted({vkind(v) for v in c["variants"]}))
+    ctx.count(key, nontrivial=nontrivial,
+              kind=("ct-" if c["comptime_caller"] else "") + c["pos"] + ":" + kinds + ":" + (res[0] if res[0] != "ok" else f"v{res[1]}"))
+    replay = {"case": c, "line": ln, "source": src, "real": r, "oracle": o, "model": mv, "accepting_variants": accepted}
+    if res[0] in ("crash", "load-exception") or orc[0].startswith("oracle-"):
+        ctx.broke(f"generated program outside the modelled fragment: real={r} oracle={o}\n{src}")
+        return res, orc
+    # --- the property on the real code: same outcome as a direct call of the first accepting variant
+    if r != o:
+        ctx.violation(key, f"overloaded call gives `{r}` but the first variant accepting a direct call gives `{o}` "
+                      f"(variants accepting directly: {accepted}; position {c['pos']}):\n{src}", replay)
+    # --- model vs real
+    if res[0] == "ok" and res[2] == "?":
+        agree = mv.split(" ")[0] == str(res[1])          # comptime caller: chosen variant only
+    elif res[0] == "ok":
+        agree = mv == r
+    elif res[0] == "none":
+        agree = mv == "none"
+    elif res[0] == "lin":
+        # rejected later by the linearity checker: resolution itself picked the oracle's variant
+        agree = mv != "none" and orc[0] == "lin" and accepted and mv.split(" ")[0].split(".")[0] == str(accepted[0])
+    else:
+        agree = False
+    if not agree:
+        ctx.broke(f"correspondence Model/Overload.lean vs overloaded.py: model=`{mv}` real=`{r}` on {ln} pos={c['pos']}\n{src}")
+    return res, orc
+
+
 def tie(ctx):
     cs = cases(ctx)
-    lines = [line(c) for c in cs]
+    subs = []          # (index of the owning multi-call case or None, sub-case with one call)
+    for i, c in enumerate(cs):
+        subs.append((i if c.get("more") else None, c))
+        for mc in c.get("more") or []:
+            subs.append((i, dict(c, args=mc["args"], exp=mc["exp"], pos=mc["pos"], comptime_caller=False, more=None)))
+    lines = [line(c) for _, c in subs]
     model = ctx.driver(DRIVER, lines)
-    for c, ln, mv in zip(cs, lines, model):
-        res, src = run_real(c)
-        orc, accepted = oracle(c)
-        r, o = show(res), show(orc)
-        key = "case:" + ln + f" pos={c['pos']}" + (" comptime" if c["comptime_caller"] else "")
-        nontrivial = len(c["variants"]) >= 2 and 0 not in accepted
-        kinds = "".join(sorted({vkind(v) for v in c["variants"]}))
-        ctx.count(key, nontrivial=nontrivial,
-                  kind=("ct-" if c["comptime_caller"] else "") + c["pos"] + ":" + kinds + ":" + (res[0] if res[0] != "ok" else f"v{res[1]}"))
-        replay = {"case": c, "line": ln, "source": src, "real": r, "oracle": o, "model": mv, "accepting_variants": accepted}
-        if res[0] in ("crash", "load-exception") or orc[0].startswith("oracle-"):
-            ctx.broke(f"generated program outside the modelled fragment: real={r} oracle={o}\n{src}")
+    outcomes = {}      # owner index -> list of (call, oracle result) in call-index order (0 = the main call)
+    for (owner, c), ln, mv in zip(subs, lines, model):
+        _res, orc = judge(ctx, c, ln, mv)
+        if owner is not None:
+            outcomes.setdefault(owner, []).append(({"args": c["args"], "exp": c["exp"], "pos": c["pos"]}, orc))
+    # --- history: all calls that resolve on their own, together in ONE function, in a generated order; each call must still
+    #     resolve exactly as it does alone (= as the direct call of the first accepting variant)
+    for i, lst in outcomes.items():
+        c = cs[i]
+        order = [j for j in c.get("order", range(len(lst))) if j < len(lst) and lst[j][1][0] == "ok"]
+        if len(order) < 2:
             continue
-        # --- the property on the real code: same outcome as a direct call of the first accepting variant
-        if r != o:
-            ctx.violation(key, f"overloaded call gives `{r}` but the first variant accepting a direct call gives `{o}` "
-                          f"(variants accepting directly: {accepted}; position {c['pos']}):\n{src}", replay)
-        # --- model vs real
-        if res[0] == "ok" and res[2] == "?":
-            agree = mv.split(" ")[0] == str(res[1])          # comptime caller: chosen variant only
-        elif res[0] == "ok":
-            agree = mv == r
-        elif res[0] == "none":
-            agree = mv == "none"
-        elif res[0] == "lin":
-            # rejected later by the linearity checker: resolution itself picked the oracle's variant
-            agree = mv != "none" and orc[0] == "lin" and accepted and mv.split(" ")[0].split(".")[0] == str(accepted[0])
-        else:
-            agree = False
-        if not agree:
-            ctx.broke(f"correspondence Model/Overload.lean vs overloaded.py: model=`{mv}` real=`{r}` on {ln} pos={c['pos']}\n{src}")
+        calls = [lst[j][0] for j in order]
+        want = [show(lst[j][1]) for j in order]
+        got, src = run_seq(c, calls)
+        key = "seq:" + line(c) + " calls=" + json.dumps([[arg_sx(a) for a in cl["args"]] + [cl["pos"]] for cl in calls])
+        ctx.count(key, nontrivial=len(set(want)) > 1, kind=f"seq{len(calls)}")
+        replay = {"case": c, "calls": calls, "source": src, "expected_per_call": want,
+                  "real": [show(g) for g in got] if isinstance(got, list) else ":".join(got)}
+        if not isinstance(got, list):
+            ctx.violation(key, f"calls that each resolve on their own are rejected when written in one function ({':'.join(got)}); "
+                          f"expected per call {want}:\n{src}", replay)
+        elif [show(g) for g in got] != want:
+            ctx.violation(key, f"in a sequence of calls of one overloaded function the calls resolve to {[show(g) for g in got]}, "
+                          f"but each call on its own (= first variant accepting a direct call) gives {want}:\n{src}", replay)
 
 
 if __name__ == "__main__":
